@@ -278,7 +278,18 @@ def master_specs(fam):
         if drop:
             sp["kerning"] = [p for j, p in enumerate(sp["kerning"]) if j not in drop]
         for tw in fam.get("tweaks", []):
+            if tw["kind"] == "const-kerning":
+                # these kerning entries have the same value in every master (no per-master jitter)
+                for j in tw["indices"]:
+                    if j < len(sp["kerning"]) and j < len(fam["base"]["kerning"]) and sp["kerning"][j][:2] == fam["base"]["kerning"][j][:2]:
+                        sp["kerning"][j][2] = fam["base"]["kerning"][j][2]
+                continue
             if tw["master"] != i:
+                continue
+            if tw["kind"] == "extra-groups":
+                # kerning groups (and a pair between them) that only this master defines
+                sp["groups"] = dict(sp.get("groups", {}), **tw["groups"])
+                sp["kerning"] = sp["kerning"] + [list(p) for p in tw["kerning"]]
                 continue
             g = next((g for g in sp["glyphs"] if g["name"] == tw["glyph"]), None)
             if g is None:
